@@ -19,6 +19,9 @@ type offCase struct {
 	ET     int          `json:"end_type"`
 	Miter  float64      `json:"miter_limit"`
 	ArcTol float64      `json:"arc_tolerance"`
+	// finely rounded results have thousands of vertices: the cubic region judge of the canonical-form
+	// clause is skipped for them (the syntax checks and the distance clauses are not)
+	Fine bool `json:"fine_arcs,omitempty"`
 }
 
 type osample struct {
@@ -226,7 +229,7 @@ func c05Check(o *Oracle, c offCase) (ok bool, kind, detail, resp string) {
 	if msg := canonicalSyntax(out); msg != "" {
 		return false, "syntax", msg, ""
 	}
-	if len(out) > 0 {
+	if len(out) > 0 && !c.Fine {
 		sgn := 1
 		if k, r := askRegion(o, regionLine("c02", []int{sgn}, 4, []int{0}, []clip.Paths64{out})); !k {
 			// a globally reversed input keeps its orientation: accept all-negative as canonical too
@@ -290,6 +293,31 @@ func genRoundCase(r *Rng) offCase {
 		c.Delta = math.Round(f * inr)
 	}
 	if r.Bool() { // either global orientation
+		for i := range c.Paths {
+			c.Paths[i] = clip.ReversePath(c.Paths[i])
+		}
+	}
+	return c
+}
+
+// a large delta with a small explicit arc tolerance ("as exact as possible"): the regime in which the
+// requested tolerance, not the default 0.002·|delta|, has to decide the number of arc steps
+func genFineArcCase(r *Rng) offCase {
+	n := []int{3, 4, 5}[r.Intn(3)]
+	rad := float64([]int{6000, 9000, 14000}[r.Intn(3)])
+	ring := regularNgon(int64(r.Range(-500, 500)), int64(r.Range(-500, 500)), rad, n, float64(r.Intn(7))*0.3)
+	c := offCase{JT: int(clip.Round), ET: 0, Miter: 2, Fine: true}
+	c.ArcTol = []float64{0.01, 0.02, 0.05}[r.Intn(3)]
+	d := []float64{2000, 3000}[r.Intn(2)]
+	if r.Chance(0.35) { // a plate with the ring as a hole shrinks towards the hole: concave side of the plate, convex for the hole
+		s := int64(3 * rad)
+		c.Paths = clip.Paths64{{{X: -s, Y: -s}, {X: s, Y: -s}, {X: s, Y: s}, {X: -s, Y: s}}, clip.ReversePath(ring)}
+		c.Delta = -d
+	} else {
+		c.Paths = clip.Paths64{ring}
+		c.Delta = d
+	}
+	if r.Bool() {
 		for i := range c.Paths {
 			c.Paths[i] = clip.ReversePath(c.Paths[i])
 		}
@@ -414,10 +442,13 @@ func init() {
 			return nil
 		}
 	}
-	reg("c05-search", "C05", "c05", "simple polygon sets with holes (stars, nested rings, rectangles; both global orientations; repeated points, explicit closing points once or twice; 6 % regular 5- to 90-gons and plates with such holes, radius 60-1000, |delta| at 0.8-1.6 of the inradius) × delta from ±0.3 to beyond the inradius × 4 join types × miter limits 1-10 × arc tolerances; result canonical (C02 oracle); exact-rational samples: points within delta−tol of the input region along edge normals must be inside, every solution vertex / edge midpoint within k·delta+tol of the input region, and points of the complement beyond that distance (inside holes too) outside the solution; mirrored for shrinking; |delta|<0.5 identity; judged by the Lean oracle with exact distances and winding numbers; non-trivial = ≥ 4 judged samples",
+	reg("c05-search", "C05", "c05", "simple polygon sets with holes (stars, nested rings, rectangles; both global orientations; repeated points, explicit closing points once or twice; 6 % regular 5- to 90-gons and plates with such holes, radius 60-1000, |delta| at 0.8-1.6 of the inradius; 0.4 % large polygons with |delta| 2000-3000, Round joins and explicit arc tolerances of 0.01-0.05, for which the canonical-form region judge is skipped) × delta from ±0.3 to beyond the inradius × 4 join types × miter limits 1-10 × arc tolerances; result canonical (C02 oracle); exact-rational samples: points within delta−tol of the input region along edge normals must be inside, every solution vertex / edge midpoint within k·delta+tol of the input region, and points of the complement beyond that distance (inside holes too) outside the solution; mirrored for shrinking; |delta|<0.5 identity; judged by the Lean oracle with exact distances and winding numbers; non-trivial = ≥ 4 judged samples",
 		func(r *Rng) offCase {
 			if r.Chance(0.06) {
 				return genRoundCase(r)
+			}
+			if r.Chance(0.004) {
+				return genFineArcCase(r)
 			}
 			var ps clip.Paths64
 			for tries := 0; tries < 20; tries++ {
